@@ -7,7 +7,7 @@ RULE = ("case = (matrix with 1..4 frames with unique names (some names prefixes/
         "dictionaries containing used and unused names, equal names on several levels; a sequence of 1..3 operations "
         "delete_zero_signals / delete_obsolete_defines / del_signal(glob) / rename_signal(name, prefix*, *suffix) / del_frame / "
         "rename_frame / del_signal_attributes / del_frame_attributes); the state after every operation is observed. "
-        "Non-trivial = distinct case in which at least one operation changed the matrix.")
+        "Attribute values include the empty text, \"0\" and \"False\". Non-trivial = distinct case in which at least one operation changed the matrix.")
 PARTIAL = ["attribute values and definition bodies are opaque strings here; ENUM conversion belongs to C05"]
 ASSUMPTIONS = ["frame names unique in the matrix and signal names unique within a frame (the Spec is asserted only on such states)",
                "patterns and names are non-empty and carry at most one '*' at the beginning or the end"]
@@ -22,7 +22,8 @@ FRAME_PATS = ["Msg*", "*Msg", "Diag_*", "*Ext", "Status", "Req", "*Req", "Status
 
 
 def rand_attrs(rng):
-    return [[a, "v%d" % rng.randrange(3)] for a in ATTRS if rng.random() < 0.3]
+    # (an attribute may be set to the empty text, to "0" or to "False": it is set all the same)
+    return [[a, rng.choice(["v0", "v1", "v2", "", "0", "False"])] for a in ATTRS if rng.random() < 0.3]
 
 
 def gen_matrix(rng):
